@@ -161,12 +161,12 @@ func (s *Session) script(want func(*Oblig) bool, timeoutMs int, cvc bool) (strin
 			fmt.Fprintf(&b, "(assert %s)\n", ob.Reach)
 			if !ob.Cover {
 				fmt.Fprintf(&b, "(assert (not %s))\n", ob.Goal)
-			} else if !cvc {
-				b.WriteString("(set-option :timeout 1500)\n")
 			}
-			fmt.Fprintf(&b, "(echo \"@@ %d\")\n(check-sat)\n(pop 1)\n", len(order))
 			if ob.Cover && !cvc {
-				fmt.Fprintf(&b, "(set-option :timeout %d)\n", timeoutMs)
+				// vacuity checks get a short time budget: an inconclusive cover is not an alarm
+				fmt.Fprintf(&b, "(echo \"@@ %d\")\n(check-sat-using (try-for smt 1500))\n(pop 1)\n", len(order))
+			} else {
+				fmt.Fprintf(&b, "(echo \"@@ %d\")\n(check-sat)\n(pop 1)\n", len(order))
 			}
 			order = append(order, ob)
 		}
